@@ -42,7 +42,8 @@ ReplaceCases(tier) ==
             wi == ((i - 1) \div Len(B)) + 1
         IN [id |-> i, defs |-> <<>>, trans |-> C05_Trans,
             cmds |-> <<[kind |-> "replace", amt |-> [k |-> "all"], body |-> B[bi], with |-> W[wi]]>>,
-            sigma |-> SetToSeq(Sg), lo |-> 1, hi |-> IF tier = "quick" THEN 3 ELSE 5]]
+            \* thorough: single items on all texts up to length 5, pairs of items up to length 4
+            sigma |-> SetToSeq(Sg), lo |-> 1, hi |-> IF tier = "quick" THEN 3 ELSE IF Len(W[wi]) <= 1 THEN 5 ELSE 4]]
 
 (* C06: command lists x file sets x modes x stale .vored                    *)
 FileCases(tier) ==
@@ -116,8 +117,11 @@ ExprCases(tier) ==
 
 TypingCases(tier) ==
   LET L == SetToSeq(C12_Lists(tier))
+      W == SetToSeq(C12_Writers)  R == SetToSeq(C12_Readers)
   IN [i \in 1..(2 * Len(L)) |->
         IF i <= Len(L) THEN C12_Case(i, L[i], "trans") ELSE C12_Case(i, L[i - Len(L)], "pred")]
+     \o [i \in 1..(2 * Len(W) * Len(R)) |->
+          LET j == (i - 1) \div 2 IN C12_Case2(2 * Len(L) + i, W[(j % Len(W)) + 1], R[(j \div Len(W)) + 1], ((i - 1) % 2) + 1)]
 
 (* C13: for every (body, use) the three spellings, as single commands and  *)
 (* as programs of 2-3 commands that share the definitions                   *)
